@@ -53,6 +53,55 @@ Theorem key_injective_all_events :
 Proof. exact Proofs.C37.key_of_injective. Qed.
 Print Assumptions key_injective_all_events.
 
+(* contrapositive, the form the correspondence check relies on: the judge compares the STRUCTURED
+   events (seed, hash, block / wallet ID — [ev_eqb]), never their keys; two different events of one
+   cache have different keys, so the model handles both *)
+Theorem distinct_events_have_distinct_keys :
+  forall e e' : ev,
+    wf_ev e = true -> wf_ev e' = true -> cache_of e = cache_of e' -> e <> e' -> key_of e <> key_of e'.
+Proof. exact Proofs.C37.distinct_events_distinct_keys. Qed.
+Print Assumptions distinct_events_have_distinct_keys.
+
+(* near-collisions: the DKG-result key changes whenever ONE hex digit of the seed (any position
+   i, counted from the last digit, including positions beyond the current length: 0xab -> 0x1ab,
+   0xab -> 0xb), ONE hex digit of the result hash (any of the 64, the last one next to the
+   separator included), ONE decimal digit of the block, or the block as a whole changes *)
+Theorem dkg_result_key_changes_with_any_single_digit :
+  forall (s : Z) (h : list N) (b : N),
+    bytes32 h = true -> (b < 18446744073709551616)%N ->
+    (forall i v, v <> Z_nibble s i ->
+       key_dkg_result (Z_set_nibble s i v) h b <> key_dkg_result s h b) /\
+    (forall i v x, get_nibble h i = Some x -> (v < 16)%N -> v <> x ->
+       key_dkg_result s (set_nibble h i v) b <> key_dkg_result s h b) /\
+    (forall i v, v <> N_digit b i -> (N_set_digit b i v < 18446744073709551616)%N ->
+       key_dkg_result s h (N_set_digit b i v) <> key_dkg_result s h b) /\
+    (forall b', (b' < 18446744073709551616)%N -> b' <> b ->
+       key_dkg_result s h b' <> key_dkg_result s h b).
+Proof. exact Proofs.C37.key_dkg_result_single_digit. Qed.
+Print Assumptions dkg_result_key_changes_with_any_single_digit.
+
+(* the same for the DKG-started keys (tbtc and beacon) and the wallet-closed key *)
+Theorem started_closed_keys_change_with_any_single_digit :
+  (forall s i v, v <> Z_nibble s i ->
+     key_of (DkgStarted (Z_set_nibble s i v)) <> key_of (DkgStarted s) /\
+     key_of (BeaconDkgStarted (Z_set_nibble s i v)) <> key_of (BeaconDkgStarted s)) /\
+  (forall id i v x, bytes32 id = true -> get_nibble id i = Some x -> (v < 16)%N -> v <> x ->
+     key_of (WalletClosed (set_nibble id i v)) <> key_of (WalletClosed id)).
+Proof. exact Proofs.C37.key_of_single_digit. Qed.
+Print Assumptions started_closed_keys_change_with_any_single_digit.
+
+(* not vacuous: every one of the 64 hex digits of a 32-byte string can be edited, and the
+   edited string is again a 32-byte string *)
+Theorem every_digit_of_a_hash_can_be_edited :
+  forall (l : list N) (i : nat) (v : N),
+    bytes32 l = true -> (i < 64)%nat -> (v < 16)%N ->
+    (exists x, get_nibble l i = Some x) /\ bytes32 (set_nibble l i v) = true.
+Proof.
+  intros l i v Hl Hi Hv. split;
+    [exact (Proofs.C37.bytes32_nibbles l i Hl Hi)|exact (Proofs.C37.set_nibble_bytes32 l i v Hv Hl)].
+Qed.
+Print Assumptions every_digit_of_a_hash_can_be_edited.
+
 (* ---- the two deduplicators (four caches): per distinct EVENT ---- *)
 Theorem exactly_one_true_per_distinct_event :
   forall (spans : list Z) (ops : list dop) (now : Z),
